@@ -1308,6 +1308,11 @@ func (g *Gen) fixup(op *Op) *Op {
 //  3. 1-4 entities with S (and sometimes one extra component: a second source table)
 //  4. the batch operation through the drawn instantiation.
 func (g *Gen) genScenario(t *rapid.T) *Op {
+	if rapid.IntRange(0, 3).Draw(t, "relationScenario") == 0 {
+		if op := g.genRelScenario(t); op != nil {
+			return op
+		}
+	}
 	useEx := rapid.IntRange(0, 2).Draw(t, "scenarioViaExchange") == 0
 	var inst int
 	var list []int
@@ -1402,4 +1407,55 @@ func (g *Gen) genBatchCall(t *rapid.T) *Op {
 		op.QRels = append(op.QRels, RelSpec{C: c, T: g.pickTarget(t), S: rapid.IntRange(0, 2).Draw(t, "relStyle")})
 	}
 	return op
+}
+
+// genRelScenario emits a scenario around SetRelationsBatch with two relation components: several entities of one
+// archetype spread over tables with different target pairs, an observer on one of the relation components, then a
+// batch that sets both relations, so that per table a different subset of the relations actually changes.
+func (g *Gen) genRelScenario(t *rapid.T) *Op {
+	m := g.m()
+	if len(m.Obs) >= 8 || len(m.AliveList()) > g.P.MaxEnts-8 {
+		return nil
+	}
+	// a mapper that contains two relation components
+	var cands []int
+	for i := 2 * comps.N; i < len(MapInsts); i++ {
+		if len(listOf(MapInsts[i].Mask&comps.RelMask)) >= 2 {
+			cands = append(cands, i)
+		}
+	}
+	if len(cands) == 0 {
+		return nil
+	}
+	inst := rapid.SampledFrom(cands).Draw(t, "relMapper")
+	rl := listOf(MapInsts[inst].Mask & comps.RelMask)
+	ra, rb := rl[0], rl[1]
+	if rapid.Bool().Draw(t, "swapRel") {
+		ra, rb = rb, ra
+	}
+	base := subset(t, 0xffff&^comps.RelMask, 0, 1, "relScenarioBase")
+	n0 := len(m.Ents)
+	var q []*Op
+	// two fresh targets
+	q = append(q, &Op{K: "new", P: PWorld}, &Op{K: "new", P: PWorld})
+	tg := []int{n0, n0 + 1, -1}
+	q = append(q, &Op{K: "filterNew", FS: &FilterSpec{Inst: 0, With: append(append([]int{}, base...), ra, rb)}})
+	ev := rapid.SampledFrom([]int{EvAddRels, EvRemoveRels}).Draw(t, "relObsEvent")
+	q = append(q, &Op{K: "obsNew", OS: &ObsSpec{Inst: -1, Ev: ev, For: []int{ra}}, Mode: 1})
+	cnt := rapid.IntRange(2, 5).Draw(t, "relScenarioEntities")
+	for i := 0; i < cnt; i++ {
+		cl := append(append([]int{}, base...), ra, rb)
+		op := &Op{K: "new", P: PUnsafe, Comps: cl, Vals: g.vals(len(cl)), Rels: []RelSpec{
+			{C: ra, T: rapid.SampledFrom(tg).Draw(t, "ta"), S: 2}, {C: rb, T: rapid.SampledFrom(tg).Draw(t, "tb"), S: 2}}}
+		q = append(q, op)
+	}
+	b := &Op{K: "setRelBatch", F: -1, P: PMap, M: inst, Fn: rapid.Bool().Draw(t, "fn"), Rels: []RelSpec{
+		{C: ra, T: rapid.SampledFrom(tg).Draw(t, "newTa"), S: rapid.IntRange(0, 2).Draw(t, "relStyle")},
+		{C: rb, T: rapid.SampledFrom(tg).Draw(t, "newTb"), S: rapid.IntRange(0, 2).Draw(t, "relStyle")}}}
+	if rapid.Bool().Draw(t, "relsReversed") {
+		b.Rels[0], b.Rels[1] = b.Rels[1], b.Rels[0]
+	}
+	q = append(q, b)
+	g.queue = q[1:]
+	return q[0]
 }
